@@ -403,6 +403,10 @@ func (p *Prog) FrameObligations(prop string) []*Obligation {
 		return p.c08Obligations()
 	case "C13":
 		return p.c13Obligations()
+	case "C02":
+		return p.ownObligations(map[string]bool{"generator": true, "path": true}, "C02")
+	case "C01":
+		return p.ownObligations(map[string]bool{"generator": true, "profile": true}, "C01")
 	case "C07":
 		return p.c07Obligations()
 	case "C10", "C09":
